@@ -120,6 +120,31 @@ pub fn enrich(ms: &mut ModuleSet) {
     }
 }
 
+/// a bystander module that nobody imports from declares named numbers and enumerals spelled
+/// like the imported values of `enrich`: an identifier in a constraint must not be resolved in a
+/// module that is neither the user's own nor one it imports from (the bystander is in no
+/// import closure, so "together" and "alone" differ exactly when it leaks). `n` = number of
+/// modules `enrich` saw.
+fn add_bystander(ms: &mut ModuleSet, n: usize) {
+    if n < 2 {
+        return;
+    }
+    let mut by = ms.modules[0].clone();
+    by.name = "Zz-Bystander".into();
+    by.items.clear();
+    by.imports.clear();
+    for j in 0..n - 1 {
+        let vname = format!("lim-{}", (b'a' + j as u8) as char);
+        by.items.push(Item::Type { name: format!("Aa-Clash{j}"), tag: None, ty: Ty::Integer { named: vec![(vname.clone(), 3)], cons: vec![] } });
+        by.items.push(Item::Type {
+            name: format!("Zz-Clash{j}"),
+            tag: None,
+            ty: Ty::Enumerated(EnumDef { root: vec![(format!("zz-first{j}"), None), (vname.clone(), None)], ext: None }),
+        });
+    }
+    ms.modules.push(by);
+}
+
 /// a value whose governing type is defined in a third module: module j holds `typed-j Wide-k ::= 7`
 /// (importing Wide-k from module k), module j+1 imports the value only
 fn enrich_typed_values(ms: &mut ModuleSet) {
@@ -235,17 +260,27 @@ fn expected_uses(ms: &ModuleSet, m: &Module, scope: &gen::Scope) -> (Vec<(String
 
 pub fn eval(ms0: &ModuleSet) -> Verdict {
     let mut ms = ms0.clone();
+    let n_orig = ms.modules.len();
     enrich(&mut ms);
     enrich_typed_values(&mut ms);
+    add_bystander(&mut ms, n_orig);
     let ms = &ms;
     let cfg = Cfg::default();
     let feats = features(ms);
     let differing_defaults = ms.modules.iter().map(|m| (m.tagging, m.ext_implied)).collect::<BTreeSet<_>>().len() > 1;
     let nontrivial = ms.modules.len() >= 2 && differing_defaults && feats.contains("import");
     let sources: Vec<String> = ms.modules.iter().map(|m| print(&ModuleSet { modules: vec![m.clone()] })).collect();
+    if std::env::var("C12_DUMP").is_ok() && ms.modules.len() >= 3 {
+        println!("DUMP\n{}", sources.join("\n"));
+    }
     let full = match compile_blocks(&sources, &cfg) {
         Ok(f) => f,
-        Err(_) => return Verdict::Skip("full-set-did-not-compile"),
+        Err(e) => {
+            if std::env::var("C12_DUMP").is_ok() {
+                println!("FULLERR {e}");
+            }
+            return Verdict::Skip("full-set-did-not-compile");
+        }
     };
     let scope = gen::Scope::from_set(ms);
     // (2) import rendering
